@@ -128,8 +128,8 @@ Qed.
 
 Lemma RU_in_ign : forall m wnt, in_ign ustep (udp_step ls) plain_in (RU m wnt).
 Proof.
-  intros m wnt h x s l Hp _. split; [apply udp_step_plain; exact Hp|].
-  intros h' E. inversion E. reflexivity.
+  intros m wnt h x s l h' x' Hp HR E1 E2. inversion E1. rewrite (udp_step_plain _ _ _ Hp) in E2.
+  inversion E2. subst. exact HR.
 Qed.
 
 (* every input line is accepted while no sendto is owed *)
